@@ -349,6 +349,17 @@ def check(run: Run) -> None:
         from . import c15
         R.share(run, "C02.m", c15, ["C15.c"])
 
+    with run.obligation("C02.n", "K1", "a wake-up pending inside the active branch of a switch_ survives a wake-up of the switch node for another reason: the switch node has ONE "
+                        "schedule slot, which the waking notification overwrote with NOW; only evaluating the child (whose evaluate ends by propagating its next time) puts "
+                        "the pending deadline back, so switch_evaluate evaluates the active branch on every visit (shared with C12.a)"):
+        from . import c12
+        R.share(run, "C02.n", c12, ["C12.a"])
+
+    with run.obligation("C02.o", "K1+K2", "a node that is woken in the start cycle AND books a later time from its start hook gets both: the start-cycle schedule is written AFTER the "
+                        "user start hook (a slot <= the current time counts as consumed, so the hook's later booking would otherwise replace it) (shared with C03.f, the origin of C18.h)"):
+        from . import c03 as c03_
+        R.share(run, "C02.o", c03_, ["C03.f"])
+
 
 # shared with C03 / C15 / C18 ---------------------------------------------------------------------
 NODE_EVAL_CALLS = {"EVAL": r"callbacks\(context\)\.evaluate", "WERR": r"write_node_error", "ADV": r"sched\.advance",
